@@ -426,6 +426,11 @@ def finish(ctx, level="model_checking", extra_cov=None):
     with open(os.path.join(EVID, ctx.pid + ".json"), "w") as f:
         json.dump(ev, f, indent=1)
     rc = 0
+    if not real and (ctx.evaluations == 0 or ctx.states == 0):
+        # vacuity: nothing the specification produced reached the real code (or TLC explored nothing)
+        print("INCONCLUSIVE property=%s vacuous run: states=%d evaluations=%d" % (ctx.pid, ctx.states, ctx.evaluations))
+        ctx.cleanup()
+        sys.exit(2)
     if real:
         rdir = os.path.join(VERIF, "replays")
         os.makedirs(rdir, exist_ok=True)
